@@ -385,6 +385,12 @@ func bindOne(r *Run, a *bindActor, obj reflect.Value, m reflect.Method, d *Deplo
 			}
 			if c.halted {
 				halted = true
+				if err != nil && !generatedMethod(d.Repo, m.Name) {
+					// hand-written helper (e.g. rpc/nns.ResolveFSContract documents an
+					// error for a record list without an address): not a decoder
+					r.Count("binding_helper_error_not_judged")
+					return
+				}
 				if err != nil && !strings.Contains(err.Error(), "session") {
 					kf := ""
 					if d.Repo == "container" && m.Name == "EACL" && strings.Contains(err.Error(), "field Pub") {
